@@ -128,3 +128,17 @@ reg(Spec(
     ],
     modelled=["cmd/namedpipe.go wiring (one event writer, unbuffered logins channel)", "order of write and hand-off in processors/sshd", "sessiontracker (shared model)"],
 ))
+
+reg(Spec(
+    "C14", "Props/C14.v", harness="render",
+    overlay={"processors/auditd/sessiontracker/verif_export.go": "harness/overlay/sessiontracker_verif.go",
+             "processors/auditd/verif_export.go": "harness/overlay/auditd_verif.go"},
+    args_quick=["-n", "150"], args_thorough=["-n", "1500"], args_search=["-n", "800"],
+    assumptions=[
+        "go-libaudit (ParseLogLine, Reassembler, CoalesceMessages, ResolveIDs) is not modelled: the model starts at the coalesced event; the library is the oracle for action/how/object and the argument list",
+        "identity content = subjects, source{type,value,extra}, target as key-sorted association lists; JSON omitempty makes empty and absent equal",
+        "non-mutation of the stored Go login object is checked by deep-copy comparison in the harness (a correspondence obligation), the model-level statement is C14_non_mutation",
+    ],
+    modelled=["sessiontracker.go: user.toAuditEvent, writeAndClearCache", "reassembler_callback.go: ReassemblyComplete (exercised, library parts as oracle)"],
+    extra_targets=["Model/ToEventCheck.vo"],
+))
